@@ -66,9 +66,11 @@ namespace occa {
   }
 
   memoryPool& memoryPool::swap(memoryPool &m) {
-    modeMemoryPool_t *modeMemoryPool_ = modeMemoryPool;
-    modeMemoryPool   = m.modeMemoryPool;
-    m.modeMemoryPool = modeMemoryPool_;
+    // Go through the reference-tracking assignments so that each wrapper
+    // ends up in the ring of the object it points to
+    memoryPool tmp(m);
+    m = *this;
+    *this = tmp;
     return *this;
   }
 
